@@ -414,6 +414,7 @@ TEXT = ("Held on every pair observed: ~2*10^5 (quick) / ~2.5*10^7 (thorough) ord
         "refs (two managers) compared with the descriptor relation for ==, hash and dict/set membership, collision "
         "families up to 10^5 keys, and structurally identical expression pairs. All pairs WITHIN each sampled family "
         "are covered; the families themselves are sampled."
-        ' Plus families over POPULATED containers whose contents differ between the two managers and change between the two builds (what a path denotes does not depend on the data). Plus short-lived temporaries: a ref is used and dropped and the next ref, built at the freed address for a different path with a colliding hash, is compared with independently built refs.')
+        ' Plus families over POPULATED containers whose contents differ between the two managers and change between the two builds (what a path denotes does not depend on the data). Plus short-lived temporaries: a ref is used and dropped and the next ref, built at the freed address for a different path with a colliding hash, is compared with independently built refs.'
+        ' Unhashable keys / operands (lists, dicts, sets, arrays): refused, or the same relation holds for independently built references.')
 NOTE = "Trusted: the generator's descriptors (label + typed steps) as ground truth for 'same access path'."
 TECHNIQUE = "runtime monitoring: all-pairs differential oracle over independently constructed refs (equality, hash, dict/set behaviour) against generator-side path identity"
